@@ -51,7 +51,7 @@ def roles_of(ast):
             elif s["k"] == "stream":
                 # a kernel-less XDMA transfer is an accelerator op that has to run on exactly one of the two special
                 # cores (the tree runs it on the compute core; the statement does not say which one)
-                out[s["tag"]] = "dm" if s["kind"] in ("xdma-add", "xdma-rescale-up", "xdma-rescale-down") else ("either" if s["kind"] == "xdma-plain" else "compute")
+                out[s["tag"]] = "dm" if s["kind"] in ("xdma-add", "xdma-rescale-up", "xdma-rescale-down") else ("either" if s["kind"] in ("xdma-plain", "xdma-fused") else "compute")
             for key in ("body", "then", "else", "entry", "b1", "b2"):
                 walk(s.get(key, []))
 
